@@ -20,13 +20,26 @@ import (
 const bInf = int64(1) << 40
 
 type boundsCtx struct {
-	p     *Prog
-	fn    *ssa.Function
-	keys  map[ssa.Value]string
-	targets []string                   // extra terms phi bounds are joined against (length of the indexed base)
-	alias map[ssa.Value]ssa.Value      // load -> the single stored value it must observe
-	kills map[string][]ssa.Instruction // address key -> stores
+	p          *Prog
+	fn         *ssa.Function
+	keys       map[ssa.Value]string
+	targets    []string                     // extra terms phi bounds are joined against (length of the indexed base)
+	alias      map[ssa.Value]ssa.Value      // load -> the single stored value it must observe
+	kills      map[string][]ssa.Instruction // address key -> stores
 	reachAfter map[ssa.Instruction]map[*ssa.BasicBlock]bool
+	subst      map[ssa.Value]ssa.Value // case split: phi -> value of one incoming edge
+}
+
+// resolve applies the case-split substitution (identity when none is active).
+func (bc *boundsCtx) resolve(v ssa.Value) ssa.Value {
+	for i := 0; i < 4 && bc.subst != nil; i++ {
+		s, ok := bc.subst[v]
+		if !ok {
+			break
+		}
+		v = s
+	}
+	return v
 }
 
 func newBoundsCtx(p *Prog, fn *ssa.Function) *boundsCtx {
@@ -96,6 +109,7 @@ func storeMayReach(st ssa.Instruction, ld ssa.Instruction) bool {
 
 // key: canonical term name of an SSA value (value numbering lite).
 func (bc *boundsCtx) key(v ssa.Value) string {
+	v = bc.resolve(v)
 	if k, ok := bc.keys[v]; ok {
 		return k
 	}
@@ -163,13 +177,14 @@ func (bc *boundsCtx) key(v ssa.Value) string {
 
 // term: (name, offset) with value = name + offset; constants are ("", c).
 func (bc *boundsCtx) term(v ssa.Value, depth int) (string, int64) {
+	v = bc.resolve(v)
 	if c, ok := v.(*ssa.Const); ok && c.Value != nil && c.Value.Kind() == constant.Int {
 		i, _ := constant.Int64Val(c.Value)
 		return "", i
 	}
 	if depth < 6 {
 		if b, ok := v.(*ssa.BinOp); ok {
-			if k, isC := constInt(b.Y); isC {
+			if k, isC := constInt(bc.resolve(b.Y)); isC {
 				n, off := bc.term(b.X, depth+1)
 				switch b.Op {
 				case token.ADD:
@@ -178,7 +193,7 @@ func (bc *boundsCtx) term(v ssa.Value, depth int) (string, int64) {
 					return n, off - k
 				}
 			}
-			if k, isC := constInt(b.X); isC && b.Op == token.ADD {
+			if k, isC := constInt(bc.resolve(b.X)); isC && b.Op == token.ADD {
 				n, off := bc.term(b.Y, depth+1)
 				return n, off + k
 			}
@@ -420,6 +435,17 @@ func (bc *boundsCtx) defFacts(f *factSet, roots []ssa.Value) {
 				// found (i >= 0, established by a dominating test)  =>  i + |sub| <= len(s)
 				if boundOf(f, "", i) <= 0 {
 					f.le(i, 0, sl, so, -sub)
+				}
+			}
+			// an index-search helper of the repository: every return is a negative constant ("not
+			// found") or an index proved inside one of its slice/string parameters
+			if h := staticCallee(&x.Call); h != nil && h.Pkg != nil && strings.HasPrefix(h.Pkg.Pkg.Path(), ModPath) && depth < 4 {
+				if lo, pi, ok := searchResultRange(bc.p, h); ok && pi < len(x.Call.Args) {
+					r := bc.key(x)
+					f.le("", 0, r, 0, -lo) // r >= lo
+					sl, so := bc.lenTerm(x.Call.Args[pi])
+					lenNonNeg(x.Call.Args[pi])
+					f.le(r, 0, sl, so, -1) // r <= len(arg)-1
 				}
 			}
 			for _, a := range x.Call.Args {
@@ -713,95 +739,134 @@ func checkBoundsOpt(p *Prog, fn *ssa.Function, axioms func(bc *boundsCtx, f *fac
 			default:
 				continue
 			}
-			f := &factSet{}
-			bc.edgeFacts(f, b)
-			for ln, lb := range callerLens {
-				f.le("", 0, ln, 0, -lb) // lb <= len(param): holds at every call site of this unexported function
-			}
-			roots := []ssa.Value{base}
-			for _, v := range []ssa.Value{idxV, lo, hi} {
-				if v != nil {
-					roots = append(roots, v)
+			attempt := func(bc *boundsCtx, extra func(f *factSet)) (bool, string) {
+				f := &factSet{}
+				bc.edgeFacts(f, b)
+				if extra != nil {
+					extra(f)
 				}
-			}
-			// also the operands of the dominating conditions
-			for d := b; d != nil; d = d.Idom() {
-				if len(d.Preds) == 1 {
-					if iff, ok := d.Preds[0].Instrs[len(d.Preds[0].Instrs)-1].(*ssa.If); ok {
-						roots = append(roots, iff.Cond)
-						if bo, ok := iff.Cond.(*ssa.BinOp); ok {
-							roots = append(roots, bo.X, bo.Y)
+				for ln, lb := range callerLens {
+					f.le("", 0, ln, 0, -lb) // lb <= len(param): holds at every call site of this unexported function
+				}
+				roots := []ssa.Value{base}
+				for _, v := range []ssa.Value{idxV, lo, hi} {
+					if v != nil {
+						roots = append(roots, bc.resolve(v))
+					}
+				}
+				// also the operands of the dominating conditions
+				for d := b; d != nil; d = d.Idom() {
+					if len(d.Preds) == 1 {
+						if iff, ok := d.Preds[0].Instrs[len(d.Preds[0].Instrs)-1].(*ssa.If); ok {
+							roots = append(roots, iff.Cond)
+							if bo, ok := iff.Cond.(*ssa.BinOp); ok {
+								roots = append(roots, bc.resolve(bo.X), bc.resolve(bo.Y))
+							}
 						}
 					}
 				}
-			}
-			if what == "reflect-field" {
-				ln := "numfield(" + bc.reflKey(base) + ")"
-				bc.targets = []string{ln}
-				f.le("", 0, ln, 0, 0)
-			} else if ln, _ := bc.lenTerm(base); ln != "" {
-				bc.targets = []string{ln}
-				f.le("", 0, ln, 0, 0)
-			} else {
-				bc.targets = nil
-			}
-			bc.defFacts(f, roots)
-			bc.rateFacts(f, b, base)
-			if axioms != nil {
-				axioms(bc, f, ins)
-			}
-			ln, lo0 := bc.lenTerm(base)
-			if what == "reflect-field" {
-				ln, lo0 = "numfield("+bc.reflKey(base)+")", 0
+				if what == "reflect-field" {
+					ln := "numfield(" + bc.reflKey(base) + ")"
+					bc.targets = []string{ln}
+					f.le("", 0, ln, 0, 0)
+				} else if ln, _ := bc.lenTerm(base); ln != "" {
+					bc.targets = []string{ln}
+					f.le("", 0, ln, 0, 0)
+				} else {
+					bc.targets = nil
+				}
+				bc.defFacts(f, roots)
+				bc.rateFacts(f, b, base)
+				if axioms != nil {
+					axioms(bc, f, ins)
+				}
+				ln, lo0 := bc.lenTerm(base)
+				if what == "reflect-field" {
+					ln, lo0 = "numfield("+bc.reflKey(base)+")", 0
+				}
+				switch what {
+				case "index", "reflect-field":
+					in, io := bc.term(idxV, 0)
+					ge0 := prove(f, "", 0, in, io)    // 0 <= idx
+					lt := prove(f, in, io+1, ln, lo0) // idx+1 <= len
+					if ge0 && lt {
+						return true, ""
+					}
+					return false, fmt.Sprintf("cannot prove 0 <= index (%v) and index < len (%v)", ge0, lt)
+				default:
+					// capacity-based reslicing s[:0] / s[:n] up to cap is allowed by Go; we prove against len
+					// unless the low bound is 0 and high is a constant 0.
+					okAll := true
+					var why []string
+					var ln2 string = ln
+					var hn string
+					var ho int64
+					if hi != nil {
+						hn, ho = bc.term(hi, 0)
+						if !prove(f, hn, ho, ln2, lo0) {
+							// s[:k] with k <= cap: accept when k is the constant 0
+							if !(hn == "" && ho == 0) {
+								okAll = false
+								why = append(why, "high <= len")
+							}
+						}
+						if !prove(f, "", 0, hn, ho) {
+							okAll = false
+							why = append(why, "0 <= high")
+						}
+					} else {
+						hn, ho = ln2, lo0
+					}
+					if lo != nil {
+						l1, l1o := bc.term(lo, 0)
+						if !prove(f, "", 0, l1, l1o) {
+							okAll = false
+							why = append(why, "0 <= low")
+						}
+						if !prove(f, l1, l1o, hn, ho) {
+							okAll = false
+							why = append(why, "low <= high")
+						}
+					}
+					if okAll {
+						return true, ""
+					}
+					return false, "cannot prove " + strings.Join(why, ", ")
+				}
 			}
 			site := BoundSite{Ins: ins, What: what}
-			switch what {
-			case "index", "reflect-field":
-				in, io := bc.term(idxV, 0)
-				ge0 := prove(f, "", 0, in, io)     // 0 <= idx
-				lt := prove(f, in, io+1, ln, lo0)  // idx+1 <= len
-				site.Proved = ge0 && lt
-				if !site.Proved {
-					site.Why = fmt.Sprintf("cannot prove 0 <= index (%v) and index < len (%v)", ge0, lt)
-				}
-			default:
-				// capacity-based reslicing s[:0] / s[:n] up to cap is allowed by Go; we prove against len
-				// unless the low bound is 0 and high is a constant 0.
-				okAll := true
-				var why []string
-				var ln2 string = ln
-				var hn string
-				var ho int64
-				if hi != nil {
-					hn, ho = bc.term(hi, 0)
-					if !prove(f, hn, ho, ln2, lo0) {
-						// s[:k] with k <= cap: accept when k is the constant 0
-						if !(hn == "" && ho == 0) {
-							okAll = false
-							why = append(why, "high <= len")
+			site.Proved, site.Why = attempt(bc, nil)
+			if !site.Proved {
+				// case split at a merge point that dominates the site: correlated phis (start/labelLen,
+				// lo/hi chosen by the same branch) are replaced by the values of one incoming edge at a
+				// time, together with the facts of that edge; the site is proved if every case is
+				for _, m := range mergeBlocksOf(b, idxV, lo, hi) {
+					all := true
+					for k, pred := range m.Preds {
+						bc2 := newBoundsCtx(p, fn)
+						bc2.subst = map[ssa.Value]ssa.Value{}
+						for _, mi := range m.Instrs {
+							ph, ok := mi.(*ssa.Phi)
+							if !ok {
+								break
+							}
+							bc2.subst[ph] = ph.Edges[k]
+						}
+						okk, _ := attempt(bc2, func(f *factSet) {
+							bc2.edgeFacts(f, pred)
+							if iff, ok := pred.Instrs[len(pred.Instrs)-1].(*ssa.If); ok && len(pred.Succs) == 2 && pred.Succs[0] != pred.Succs[1] {
+								bc2.addCond(f, iff.Cond, pred.Succs[0] == m, 0)
+							}
+						})
+						if !okk {
+							all = false
+							break
 						}
 					}
-					if !prove(f, "", 0, hn, ho) {
-						okAll = false
-						why = append(why, "0 <= high")
+					if all {
+						site.Proved, site.Why = true, ""
+						break
 					}
-				} else {
-					hn, ho = ln2, lo0
-				}
-				if lo != nil {
-					l1, l1o := bc.term(lo, 0)
-					if !prove(f, "", 0, l1, l1o) {
-						okAll = false
-						why = append(why, "0 <= low")
-					}
-					if !prove(f, l1, l1o, hn, ho) {
-						okAll = false
-						why = append(why, "low <= high")
-					}
-				}
-				site.Proved = okAll
-				if !okAll {
-					site.Why = "cannot prove " + strings.Join(why, ", ")
 				}
 			}
 			out = append(out, site)
@@ -963,7 +1028,6 @@ func sortSites(p *Prog, s []BoundSite) {
 	sort.Slice(s, func(i, j int) bool { return instrPos(s[i].Ins) < instrPos(s[j].Ins) })
 }
 
-
 // callerLenFacts: preconditions an unexported function inherits from its callers. For every
 // slice/string parameter, the largest k such that len(argument) >= k is provable at EVERY call
 // site (all call sites must be static calls inside the repository; a function whose value is
@@ -1046,5 +1110,116 @@ func callerLenFacts(p *Prog, fn *ssa.Function, bc *boundsCtx) map[string]int64 {
 			}
 		}
 	}
+	return out
+}
+
+var searchRangeMemo = map[*ssa.Function]*[3]int64{}
+
+// searchResultRange summarises an int-returning helper whose every return value is either an
+// integer constant or a value proved (inside the helper) to satisfy 0 <= v < len(param k) for one
+// fixed slice/string parameter k. Returns the smallest constant returned (<= 0; 0 if none), k.
+func searchResultRange(p *Prog, h *ssa.Function) (lo int64, param int, ok bool) {
+	if m, seen := searchRangeMemo[h]; seen {
+		if m == nil {
+			return 0, 0, false
+		}
+		return m[0], int(m[1]), m[2] == 1
+	}
+	searchRangeMemo[h] = nil // recursion guard
+	if h.Blocks == nil || h.Signature.Results().Len() != 1 {
+		return 0, 0, false
+	}
+	if bt, isB := h.Signature.Results().At(0).Type().Underlying().(*types.Basic); !isB || bt.Info()&types.IsInteger == 0 {
+		return 0, 0, false
+	}
+	hb := newBoundsCtx(p, h)
+	param = -1
+	lo = 0
+	nIdx := 0
+	for _, b := range h.Blocks {
+		ret, isRet := b.Instrs[len(b.Instrs)-1].(*ssa.Return)
+		if !isRet || b == h.Recover {
+			continue
+		}
+		v := ret.Results[0]
+		if k, isK := constInt(v); isK {
+			if k > 0 {
+				return 0, 0, false
+			}
+			if k < lo {
+				lo = k
+			}
+			continue
+		}
+		// an index: find the parameter it is proved inside
+		f := &factSet{}
+		hb.edgeFacts(f, b)
+		found := -1
+		for pi, prm := range h.Params {
+			switch prm.Type().Underlying().(type) {
+			case *types.Slice, *types.Basic:
+			default:
+				continue
+			}
+			ln, lno := hb.lenTerm(prm)
+			if ln == "" {
+				continue
+			}
+			f2 := &factSet{cs: append([]cstr{}, f.cs...), nes: append([]neq{}, f.nes...)}
+			f2.le("", 0, ln, 0, 0)
+			hb.targets = []string{ln}
+			hb.defFacts(f2, []ssa.Value{v, prm})
+			vn, vo := hb.term(v, 0)
+			if prove(f2, "", 0, vn, vo) && prove(f2, vn, vo+1, ln, lno) {
+				found = pi
+				break
+			}
+		}
+		if found < 0 || (param >= 0 && param != found) {
+			return 0, 0, false
+		}
+		param = found
+		nIdx++
+	}
+	if nIdx == 0 || param < 0 {
+		return 0, 0, false
+	}
+	searchRangeMemo[h] = &[3]int64{lo, int64(param), 1}
+	return lo, param, true
+}
+
+// mergeBlocksOf: blocks that dominate b and hold integer phis feeding the given operands
+// (searched through +,- and conversions), nearest first.
+func mergeBlocksOf(b *ssa.BasicBlock, vals ...ssa.Value) []*ssa.BasicBlock {
+	seen := map[ssa.Value]bool{}
+	found := map[*ssa.BasicBlock]bool{}
+	var walk func(v ssa.Value, d int)
+	walk = func(v ssa.Value, d int) {
+		if v == nil || seen[v] || d > 4 {
+			return
+		}
+		seen[v] = true
+		switch x := v.(type) {
+		case *ssa.Phi:
+			if bt, ok := x.Type().Underlying().(*types.Basic); ok && bt.Info()&types.IsInteger != 0 {
+				if x.Block().Dominates(b) && len(x.Block().Preds) >= 2 && len(x.Block().Preds) <= 4 {
+					found[x.Block()] = true
+				}
+			}
+		case *ssa.BinOp:
+			walk(x.X, d+1)
+			walk(x.Y, d+1)
+		case *ssa.Convert:
+			walk(x.X, d+1)
+		}
+	}
+	for _, v := range vals {
+		walk(v, 0)
+	}
+	var out []*ssa.BasicBlock
+	for m := range found {
+		out = append(out, m)
+	}
+	sort.Slice(out, func(i, j int) bool { return out[i].Index > out[j].Index })
 	return out
 }
